@@ -769,4 +769,212 @@ theorem replaceDimRhs_local (facts : List Fact) (d : Var) (idx : Nat) (s src : V
       rw [hval e he]
   · simp at h
 
+
+/-! ### the closed-form trip count is the while loop -/
+
+theorem tripCount_of_not_lt (lb ub st : Int) (hst : 0 < st) (h : ¬ lb < ub) : tripCount lb ub st = 0 := by
+  unfold tripCount
+  rw [if_neg (by omega)]
+  have : (ub - lb + st - 1) / st < 1 := Int.ediv_lt_of_lt_mul hst (by omega)
+  omega
+
+theorem tripCount_of_lt (lb ub st : Int) (hst : 0 < st) (h : lb < ub) :
+    tripCount lb ub st = tripCount (lb + st) ub st + 1 := by
+  unfold tripCount
+  rw [if_neg (by omega), if_neg (by omega)]
+  have e1 : ub - lb + st - 1 = (ub - (lb + st) + st - 1) + 1 * st := by omega
+  rw [e1, Int.add_mul_ediv_right _ _ (by omega : st ≠ 0)]
+  have e2 : ub - (lb + st) + st - 1 = ub - lb - 1 := by omega
+  rw [e2]
+  have : 0 ≤ (ub - lb - 1) / st := Int.ediv_nonneg (by omega) (by omega)
+  omega
+
+theorem iters_of_not_lt (lb ub st : Int) (hst : 0 < st) (h : ¬ lb < ub) : iters lb ub st = [] := by
+  unfold iters; rw [tripCount_of_not_lt lb ub st hst h]; rfl
+
+theorem iters_of_lt (lb ub st : Int) (hst : 0 < st) (h : lb < ub) :
+    iters lb ub st = lb :: iters (lb + st) ub st := by
+  unfold iters
+  rw [tripCount_of_lt lb ub st hst h, List.range_succ_eq_map, List.map_cons, List.map_map]
+  congr 1
+  · simp
+  · apply List.map_congr_left
+    intro k _
+    simp only [Function.comp, Nat.succ_eq_add_one, Int.natCast_add, Int.natCast_one]
+    rw [Int.mul_add, Int.mul_one]; omega
+
+/-- for a positive step the iteration values of the closed form (`⌈(ub-lb)/st⌉` values `lb + k·st`) are exactly what the
+while loop produces, for every fuel that is at least the trip count -/
+theorem iters_eq_whileIters (ub st : Int) (hst : 0 < st) :
+    ∀ (fuel : Nat) (lb : Int), tripCount lb ub st ≤ fuel → iters lb ub st = whileIters ub st fuel lb
+  | 0, lb, h => by
+    have h0 : tripCount lb ub st = 0 := by omega
+    unfold iters; rw [h0]; rfl
+  | fuel + 1, lb, h => by
+    unfold whileIters
+    by_cases hl : lb < ub
+    · rw [if_pos hl, iters_of_lt lb ub st hst hl]
+      congr 1
+      apply iters_eq_whileIters ub st hst fuel (lb + st)
+      have := tripCount_of_lt lb ub st hst hl
+      omega
+    · rw [if_neg hl, iters_of_not_lt lb ub st hst hl]
+
+
+/-! ### `replace_all_uses_with` on the whole function = the local rewrite below the definition -/
+
+theorem countOf_append (d : Var) (l1 l2 : List Var) : countOf d (l1 ++ l2) = countOf d l1 + countOf d l2 := by
+  simp [countOf, List.filter_append]
+
+theorem countOf_cons (d v : Var) (l : List Var) : countOf d (v :: l) = (if v = d then 1 else 0) + countOf d l := by
+  unfold countOf
+  by_cases h : v = d
+  · simp [h, Nat.add_comm]
+  · simp [h]
+
+theorem map_substArg_id (d : Var) (a : Arg) : ∀ (args : List Arg), countOf d (argVars args) = 0 →
+    args.map (substArg d a) = args
+  | [], _ => rfl
+  | .cst c :: r, h => by
+    simp only [List.map, substArg, argVars] at h ⊢
+    rw [map_substArg_id d a r h]
+  | .var v :: r, h => by
+    simp only [argVars, countOf_cons] at h
+    have hv : v ≠ d := fun hh => by simp [hh] at h
+    simp only [List.map, substArg, hv, if_false]
+    rw [map_substArg_id d a r (by simp [hv] at h; exact h)]
+
+theorem substArg_id3 (d : Var) (a : Arg) (lb ub st : Arg) (h : countOf d (argVars [lb, ub, st]) = 0) :
+    substArg d a lb = lb ∧ substArg d a ub = ub ∧ substArg d a st = st := by
+  have := map_substArg_id d a [lb, ub, st] h
+  simp only [List.map, List.cons.injEq, and_true] at this
+  exact this
+
+theorem subst_id (d : Var) (a : Arg) : ∀ (b : Blk), countOf d (usesOf b) = 0 → subst d a b = b
+  | .nil, _ => rfl
+  | .pure x op args r, h => by
+    simp only [usesOf, countOf_append] at h
+    simp only [subst]
+    rw [map_substArg_id d a args (by omega), subst_id d a r (by omega)]
+  | .eff id args r, h => by
+    simp only [usesOf, countOf_append] at h
+    simp only [subst]
+    rw [map_substArg_id d a args (by omega), subst_id d a r (by omega)]
+  | .loop iv lb ub st body r, h => by
+    simp only [usesOf, countOf_append] at h
+    obtain ⟨h1, h2, h3⟩ := substArg_id3 d a lb ub st (by omega)
+    simp only [subst]
+    rw [h1, h2, h3, subst_id d a body (by omega), subst_id d a r (by omega)]
+
+/-- the uses below a position are among the uses of the whole block -/
+theorem countOf_getAt_le (d : Var) : ∀ (b : Blk) (p : List Nat) (x : Var) (op : OpKind) (args : List Arg) (rest : Blk),
+    getAt b p = some (.pure x op args rest) → countOf d (usesOf rest) ≤ countOf d (usesOf b)
+  | b, [], x, op, args, rest, h => by cases b <;> simp [getAt] at h
+  | .nil, [0], x, op, args, rest, h => by simp [getAt] at h
+  | .pure y op' args' r, [0], x, op, args, rest, h => by
+    simp only [getAt, Option.some.injEq, Blk.pure.injEq] at h
+    obtain ⟨_, _, _, rfl⟩ := h
+    simp only [usesOf, countOf_append]; omega
+  | .eff id args' r, [0], x, op, args, rest, h => by simp [getAt] at h
+  | .loop iv lb ub st body r, [0], x, op, args, rest, h => by simp [getAt] at h
+  | .nil, 0 :: q :: p, x, op, args, rest, h => by simp [getAt] at h
+  | .pure y op' args' r, 0 :: q :: p, x, op, args, rest, h => by simp [getAt] at h
+  | .eff id args' r, 0 :: q :: p, x, op, args, rest, h => by simp [getAt] at h
+  | .loop iv lb ub st body r, 0 :: q :: p, x, op, args, rest, h => by
+    simp only [getAt] at h
+    have := countOf_getAt_le d body (q :: p) x op args rest h
+    simp only [usesOf, countOf_append]; omega
+  | .nil, (n + 1) :: p, x, op, args, rest, h => by simp [getAt] at h
+  | .pure y op' args' r, (n + 1) :: p, x, op, args, rest, h => by
+    simp only [getAt] at h
+    have := countOf_getAt_le d r (n :: p) x op args rest h
+    simp only [usesOf, countOf_append]; omega
+  | .eff id args' r, (n + 1) :: p, x, op, args, rest, h => by
+    simp only [getAt] at h
+    have := countOf_getAt_le d r (n :: p) x op args rest h
+    simp only [usesOf, countOf_append]; omega
+  | .loop iv lb ub st body r, (n + 1) :: p, x, op, args, rest, h => by
+    simp only [getAt] at h
+    have := countOf_getAt_le d r (n :: p) x op args rest h
+    simp only [usesOf, countOf_append]; omega
+
+/-- what the pattern really does — `replace_all_uses_with` over the WHOLE function, then erase the dim — is the model's
+local rewrite (uses below the dim only), whenever the dim has no use outside its scope (the side condition `moveDim`
+checks; always true of SSA programs) -/
+theorem replaceAllUses_global_eq_local (d : Var) (idx : Nat) (s : Var) (a : Arg) :
+    ∀ (b : Blk) (p : List Nat) (q rest : Blk),
+      getAt b p = some (.pure d (.dim idx) [.var s] rest) →
+      countOf d (usesOf b) = countOf d (usesOf rest) →
+      applyAt (replaceDimUses d idx s a) b p = .ok q →
+      applyAt removeStmt (subst d a b) p = .ok q
+  | b, [], q, rest, hg, _, h => by cases b <;> simp [applyAt] at h
+  | .nil, [0], q, rest, hg, _, h => by simp [getAt] at hg
+  | .pure y op' args' r, [0], q, rest, hg, _, h => by
+    simp only [getAt, Option.some.injEq, Blk.pure.injEq] at hg
+    obtain ⟨rfl, rfl, rfl, rfl⟩ := hg
+    simp only [applyAt, replaceDimUses] at h
+    split at h
+    · simp at h
+    split at h
+    · simp at h
+    simp only [Except.ok.injEq] at h
+    subst h
+    simp [subst, applyAt, removeStmt]
+  | .eff id args' r, [0], q, rest, hg, _, h => by simp [getAt] at hg
+  | .loop iv lb ub st body r, [0], q, rest, hg, _, h => by simp [getAt] at hg
+  | .nil, 0 :: q' :: p, q, rest, hg, _, h => by simp [getAt] at hg
+  | .pure y op' args' r, 0 :: q' :: p, q, rest, hg, _, h => by simp [getAt] at hg
+  | .eff id args' r, 0 :: q' :: p, q, rest, hg, _, h => by simp [getAt] at hg
+  | .loop iv lb ub st body r, 0 :: q' :: p, q, rest, hg, hc, h => by
+    simp only [getAt] at hg
+    have hle := countOf_getAt_le d body (q' :: p) d (.dim idx) [.var s] rest hg
+    simp only [usesOf, countOf_append] at hc
+    obtain ⟨h1, h2, h3⟩ := substArg_id3 d a lb ub st (by omega)
+    simp only [applyAt] at h
+    cases hb : applyAt (replaceDimUses d idx s a) body (q' :: p) with
+    | error x => simp [hb, Except.map] at h
+    | ok body' =>
+      simp only [hb, Except.map, Except.ok.injEq] at h
+      subst h
+      simp only [subst, h1, h2, h3, subst_id d a r (by omega), applyAt,
+        replaceAllUses_global_eq_local d idx s a body (q' :: p) body' rest hg (by omega) hb, Except.map]
+  | .nil, (n + 1) :: p, q, rest, hg, _, h => by simp [getAt] at hg
+  | .pure y op' args' r, (n + 1) :: p, q, rest, hg, hc, h => by
+    simp only [getAt] at hg
+    have hle := countOf_getAt_le d r (n :: p) d (.dim idx) [.var s] rest hg
+    simp only [usesOf, countOf_append] at hc
+    simp only [applyAt] at h
+    cases hb : applyAt (replaceDimUses d idx s a) r (n :: p) with
+    | error x => simp [hb, Except.map] at h
+    | ok r' =>
+      simp only [hb, Except.map, Except.ok.injEq] at h
+      subst h
+      simp only [subst, map_substArg_id d a args' (by omega), applyAt,
+        replaceAllUses_global_eq_local d idx s a r (n :: p) r' rest hg (by omega) hb, Except.map]
+  | .eff id args' r, (n + 1) :: p, q, rest, hg, hc, h => by
+    simp only [getAt] at hg
+    have hle := countOf_getAt_le d r (n :: p) d (.dim idx) [.var s] rest hg
+    simp only [usesOf, countOf_append] at hc
+    simp only [applyAt] at h
+    cases hb : applyAt (replaceDimUses d idx s a) r (n :: p) with
+    | error x => simp [hb, Except.map] at h
+    | ok r' =>
+      simp only [hb, Except.map, Except.ok.injEq] at h
+      subst h
+      simp only [subst, map_substArg_id d a args' (by omega), applyAt,
+        replaceAllUses_global_eq_local d idx s a r (n :: p) r' rest hg (by omega) hb, Except.map]
+  | .loop iv lb ub st body r, (n + 1) :: p, q, rest, hg, hc, h => by
+    simp only [getAt] at hg
+    have hle := countOf_getAt_le d r (n :: p) d (.dim idx) [.var s] rest hg
+    simp only [usesOf, countOf_append] at hc
+    obtain ⟨h1, h2, h3⟩ := substArg_id3 d a lb ub st (by omega)
+    simp only [applyAt] at h
+    cases hb : applyAt (replaceDimUses d idx s a) r (n :: p) with
+    | error x => simp [hb, Except.map] at h
+    | ok r' =>
+      simp only [hb, Except.map, Except.ok.injEq] at h
+      subst h
+      simp only [subst, h1, h2, h3, subst_id d a body (by omega), applyAt,
+        replaceAllUses_global_eq_local d idx s a r (n :: p) r' rest hg (by omega) hb, Except.map]
+
 end SnaxVerif.Loops
